@@ -939,7 +939,17 @@ impl<'a> Gen<'a> {
                 if sel.len() < 2 || !seen.insert(sel.clone()) {
                     continue;
                 }
-                let ks: Vec<String> = sel.iter().map(|&i| self.out.keys[i].clone()).collect();
+                let mut ks: Vec<String> = sel.iter().map(|&i| self.out.keys[i].clone()).collect();
+                // out-of-range form: a key listed several times (up to more entries than the
+                // runtime's 16-slot list of an active chord's keys); rejected by a correct parser,
+                // must not crash at run time if accepted
+                if self.rng.chance(1, 12) {
+                    let dup = ks[0].clone();
+                    let extra = *self.rng.pick(&[1usize, 2, 15, 16, 17]);
+                    for _ in 0..extra {
+                        ks.insert(0, dup.clone());
+                    }
+                }
                 let c = ActCtx { depth: 1, no_trans: true, ..Default::default() };
                 let a = self.act(c);
                 let t = self.timeout();
